@@ -823,50 +823,11 @@ func checkRecursion(c *Ctx, cone []*ssa.Function) {
 			c.OK("R4", site, comp[0].Pos(), kind)
 			continue
 		}
-		// needs a depth counter: a field/param incremented along the cycle and compared with a constant before recursing
-		bounded := false
-		for _, f := range comp {
-			eachInstr(f, func(b *ssa.BasicBlock, _ int, ins ssa.Instruction) {
-				bo, ok := ins.(*ssa.BinOp)
-				if !ok || !(bo.Op == token.GTR || bo.Op == token.GEQ || bo.Op == token.LSS || bo.Op == token.LEQ) {
-					return
-				}
-				fld, _ := loadedField(bo.X)
-				if fld == nil {
-					// comparison of an incremented value
-					if add, isAdd := bo.X.(*ssa.BinOp); isAdd && add.Op == token.ADD {
-						fld, _ = loadedField(add.X)
-					}
-				}
-				if fld == nil || !strings.Contains(strings.ToLower(fld.Name()), "depth") {
-					return
-				}
-				if _, isC := constInt(bo.Y); !isC {
-					return
-				}
-				// the field is incremented in the cycle
-				inc := false
-				for _, g := range comp {
-					eachInstr(g, func(_ *ssa.BasicBlock, _ int, x ssa.Instruction) {
-						if st, ok := x.(*ssa.Store); ok {
-							if f2, _ := fieldAddr(st.Addr); f2 == fld {
-								if add, ok := st.Val.(*ssa.BinOp); ok && add.Op == token.ADD {
-									inc = true
-								}
-							}
-						}
-					})
-				}
-				// the bound check rejects before the recursive call: the recursive call is not reachable from the failing edge
-				if inc {
-					bounded = true
-				}
-			})
-		}
-		if bounded {
-			c.OK("R4", site, comp[0].Pos(), "input-consuming recursion with a depth counter compared against a constant")
+		// needs a depth counter: balanced, guarded, and held across every cycle (recursion.go)
+		if ok, w := p.checkDepthCounter(comp); ok {
+			c.OK("R4", site, comp[0].Pos(), "input-consuming recursion bounded: "+w)
 		} else {
-			c.Fail("R4", site, comp[0].Pos(), "unbounded recursion driven by peer input: arbitrarily deep array nesting (a few megabytes of \"*1\\r\\n\") overflows the goroutine stack, which is fatal for the whole process and cannot be recovered")
+			c.Fail("R4", site, comp[0].Pos(), "recursion driven by peer input is not bounded by a depth counter ("+w+"): arbitrarily deep array nesting (a few megabytes of \"*1\\r\\n\") overflows the goroutine stack, which is fatal for the whole process and cannot be recovered")
 		}
 	}
 	if nR4 == 0 {
